@@ -280,7 +280,8 @@ class StmtMixin:
         h = self.u_hook('range_for', n, rt, rinit, lv, lt, body, out, ind)
         if h is not None: return
         core = self.skip(rinit)
-        if rt.kind == 'opaque' and lt is not None:
+        abstract_rec = rt.kind == 'rec' and rt.rec is not None and any(self.qname.get(rt.rec['id'], '').endswith(x) for x in self.u.get('abstract_sequences', []))
+        if (rt.kind == 'opaque' or abstract_rec) and lt is not None:
             # abstract sequence: the container is not modelled; iteration = indexed access through two stubs
             out.append(ind + '{'); i2 = ind + '  '
             if self.is_lv(core):
